@@ -207,7 +207,7 @@ def threaded_results(items, nthreads, rng, shared_objects=True):
         ts = [threading.Thread(target=worker, args=(rng.random(),), daemon=True) for _ in range(nthreads)]
         for t in ts:
             t.start()
-        deadline = time.time() + 600
+        deadline = time.time() + (150 if len(items) < 400 else 900)
         for t in ts:
             t.join(max(1.0, deadline - time.time()))
         if any(t.is_alive() for t in ts):
@@ -313,8 +313,14 @@ def c14(out, tier, rng):
     items = c14_workload(rng, tier)
     configs = [(hs, rng.randrange(10**6)) for hs in ([0, 1, 2, 3, 4, 5, 6, -7] if tier == "quick" else list(range(0, 30)) + [-30, -31])]
     runs = run_workers(items, configs)
-    runs += threaded_results(items, 4 if tier == "quick" else 8, rng)
     sched_res = scheduled_results(rng, tier, out)
+    runs += threaded_results(items, 4 if tier == "quick" else 8, rng)
+    # after concurrent use the operations must still answer (a lock left behind by a finished thread would block them for good)
+    try:
+        probe = record.guarded(lambda: [c14_worker.run_item({"op": "norm", "arg": "CH4/(1-5)(2-5)(3-5)(4-5)"}), c14_worker.run_item({"op": "parse", "arg": "C2/(1-"})], 30)
+        runs.append([{"key": "sh-exc|after-threads", "val": "none" if probe == ["CH4/(1-5)(2-5)(3-5)(4-5)", "EXC:TucanParserException"] else "EXC:" + str(probe)}])
+    except record.CallTimeout:
+        runs.append([{"key": "sh-exc|after-threads", "val": "EXC:public-operation-blocks-after-concurrent-use"}])
     # one registry session per key group
     groups = {}
     for ri, run in enumerate(runs):
